@@ -4,7 +4,9 @@ import (
 	"bytes"
 	"fmt"
 	"math"
+	"sort"
 	"strings"
+	"sync"
 	"time"
 
 	sdk "github.com/cosmos/cosmos-sdk/types"
@@ -30,6 +32,52 @@ type env struct {
 	pool     *pool
 	contents *syncCollisions
 	messages *syncCollisions
+
+	vmu     sync.Mutex
+	pending []pendingViol
+}
+
+// tally is what the judging code needs from engine.Tally.
+type tally interface {
+	Eval()
+	Nontrivial(key string)
+	Saw(o string)
+	Sample(max int, s any)
+	Violate(cfg any, path []string, fp, detail string)
+}
+
+type pendingViol struct {
+	idx        int64
+	cfg        any
+	path       []string
+	fp, detail string
+}
+
+// ordered is a tally whose violations are buffered with the index of the job that found them, so
+// that they can be reported in enumeration order (simplest first) whatever the worker scheduling.
+type ordered struct {
+	*engine.Tally
+	e   *env
+	idx int64
+}
+
+func (o ordered) Violate(cfg any, path []string, fp, detail string) {
+	o.e.vmu.Lock()
+	if len(o.e.pending) < 4096 {
+		o.e.pending = append(o.e.pending, pendingViol{o.idx, cfg, path, fp, detail})
+	}
+	o.e.vmu.Unlock()
+}
+
+// flush hands the buffered violations to the tally in job order.
+func (e *env) flush(t *engine.Tally) {
+	e.vmu.Lock()
+	defer e.vmu.Unlock()
+	sort.SliceStable(e.pending, func(i, j int) bool { return e.pending[i].idx < e.pending[j].idx })
+	for _, v := range e.pending {
+		t.Violate(v.cfg, v.path, v.fp, v.detail)
+	}
+	e.pending = nil
 }
 
 func (e *env) capped(name string) {
@@ -125,11 +173,12 @@ func runContents(e *env, t *engine.Tally) {
 		b := e.pool.get(worker)
 		j := jobs[idx]
 		ctx := b.atTime(j.unix)
-		evalContent(b, t, e.contents, ctx, j.c, "contents")
+		evalContent(b, ordered{t, e, idx}, e.contents, ctx, j.c, "contents")
 		if idx%997 == 0 {
 			t.Sample(40, map[string]any{"section": "contents", "input": j.c.desc, "time": j.unix})
 		}
 	})
+	e.flush(t)
 	if !done {
 		e.capped("contents")
 	}
@@ -180,7 +229,7 @@ func runDirect(e *env, t *engine.Tally) {
 	b0 := e.pool.get(0)
 	senders := []string{bandtesting.Alice.Address.String(), bandtesting.Bob.Address.String()}
 	memos := []string{"", "a", "a|b", strings.Repeat("m", 100), strings.Repeat("m", 101)}
-	times := []int64{0, 1, b0.baseTime, maxBlockTime}
+	times := []int64{b0.baseTime, 0, 1, maxBlockTime}
 	ids := []uint64{1, 2, math.MaxUint64}
 	cases := directContentCases(e)
 	var jobs []directJob
@@ -202,6 +251,7 @@ func runDirect(e *env, t *engine.Tally) {
 	done := engine.ParallelFor(int64(len(jobs)), 0, e.deadline, func(worker int, idx int64) {
 		b := e.pool.get(worker)
 		j := jobs[idx]
+		t := ordered{t, e, idx}
 		ctx := b.atTime(j.unix)
 		k := b.w.App.TSSKeeper
 		k.SetSigningCount(ctx, j.id-1)
@@ -273,6 +323,7 @@ func runDirect(e *env, t *engine.Tally) {
 			}
 		}
 	})
+	e.flush(t)
 	if !done {
 		e.capped("direct")
 	}
@@ -442,6 +493,7 @@ func runTunnel(e *env, t *engine.Tally) {
 	done := engine.ParallelFor(int64(len(jobs)), 0, e.deadline, func(worker int, idx int64) {
 		b := e.pool.get(worker)
 		j := jobs[idx]
+		t := ordered{t, e, idx}
 		states := tunnelPriceCfgs[j.cfg]
 		input := fmt.Sprintf("tunnel(id=%d,dst_chain=%q,dst_contract=%q,enc=%d,feeds=%+v)@time=%d,signing_id=%d", j.tunnelID, j.dstChain, j.dstContract, j.enc, states, j.unix, j.sid)
 		path := []string{"section=tunnel", input}
@@ -536,6 +588,7 @@ func runTunnel(e *env, t *engine.Tally) {
 			t.Sample(40, map[string]any{"section": "tunnel", "input": input, "message": short(msg)})
 		}
 	})
+	e.flush(t)
 	if !done {
 		e.capped("tunnel")
 	}
